@@ -17,6 +17,7 @@ The "does not change results" half is C08 (the result of a sweep does not depend
 pool splits and schedules it, hence not on the size of the pool it is installed in).
 -/
 import Qvnt.Lemmas.PoolLemmas
+import Qvnt.Lemmas.PoolTrace
 
 namespace Qvnt
 open Qvnt.Pool
@@ -90,6 +91,37 @@ theorem C19_can_return (s : State) (hr : Reachable false s) :
     ∃ n, n ≤ Pool.measure s ∧ ∃ run : Nat → State, run 0 = s ∧
       (∀ i, i < n → Step false (run i) (run (i + 1))) ∧ AllDone (run n) :=
   exists_run_of_inv (Pool.measure s) s (Nat.le_refl _) (inv_reachable hr)
+
+/-- **What the implementation is seen doing is a run of this model.** The event log that the
+`cfg(qvnt_verif)` stand-ins for the lock and the pool record in `src/threads.rs` (entries of
+`global_install`, lock acquisitions and releases with the stored pool size they saw, `install`
+begin / end; per thread, in the order they happened) is replayed on every check by
+`Pool.conforms`. Whenever that check accepts a log, the log starts in an initial state of
+`Reachable`, each of its events is zero, one or two moves of `Step false` — in particular no
+`install` is entered while its caller holds the lock, no write lock is taken while anybody
+reads, and every size read or written is the size the model holds — so every state the
+implementation passed through is `Reachable false` (and all theorems above apply to it), and at
+the end of the log every call has returned. -/
+theorem C19_trace_sound (pool : Option Nat) (n : Nat) (log : List (Nat × Ev))
+    (h : conforms pool n log = true) :
+    Reachable false (initOf pool n log) ∧
+      ∃ s, Steps false (initOf pool n log) s ∧ Reachable false s ∧ AllDone s :=
+  conforms_sound pool n log h
+
+/-- the same for a log that stops early (what a run that hangs leaves behind): the state after
+any accepted prefix is reachable, hence not stuck (`C19_progress`) -/
+theorem C19_trace_prefix (pool : Option Nat) (n : Nat) (log : List (Nat × Ev)) (s : State)
+    (hlt : ∀ p ∈ log, p.1 < n) (hr : replay (initOf pool n log) log 0 = .ok s) :
+    Reachable false s ∧ (AllDone s ∨ ∃ s', Step false s s') :=
+  ⟨replay_prefix_reachable pool n log s hlt hr,
+   progress_of_inv (inv_reachable (replay_prefix_reachable pool n log s hlt hr))⟩
+
+/-- non-vacuity: a real log shape (first-use race of two threads with different sizes) is accepted -/
+example : conforms none 2
+    [(0, .call 2), (1, .call 3), (0, .readAcq), (1, .readAcq), (0, .readRel none), (1, .readRel none),
+     (1, .writeAcq), (1, .writeRel (some 3)), (0, .writeAcq), (0, .writeRel (some 2)),
+     (1, .readAcq), (0, .readAcq), (1, .readRel (some 2)), (0, .readRel (some 2)),
+     (1, .installBegin), (0, .installBegin), (1, .installEnd), (0, .installEnd)] = true := by decide
 
 /-- **The code before the repair deadlocks** (and the model can express it). With the read
 guard kept across `install` this state is reachable: one caller thread — a worker of the
